@@ -4,7 +4,7 @@ manifest stays valid and in step with what the engine actually checks)."""
 import json, os
 
 GO = "GOFLAGS=-mod=vendor GOPROXY=off GOSUMDB=off GOTOOLCHAIN=local"
-TECH = "contract-based deductive verification: WP-style VCs generated from naive-form go/ssa of /repo against //@ contracts, discharged by z3 5.1 / cvc5 / z3 4.8"
+TECH = "contract-based deductive verification: path-wise verification conditions generated from naive-form go/ssa of /repo against //@ contracts (pre/postconditions, loop and type invariants, frames, channel-role invariants, mechanical interface/function-value refinement), discharged by z3 5.1 / cvc5 / z3 4.8; every run closed over the contracted callees of its functions"
 
 CLAIMED = {
  "C02": dict(
@@ -23,7 +23,7 @@ CLAIMED = {
    text="Priority order as postconditions: popping the heap yields bars in non-decreasing priority given the heap was ordered (order), heap.Fix is called for a bar still in the heap and skipped otherwise (fixed/unfixed), flush leaves priorities alone except that a successor takes its predecessor's priority and a popped bar gets the running pop priority, and Add numbers bars by creation order. priorityQueue.Less/Swap/Push/Pop are verified against the index-consistency type invariant.",
    note="container/heap's ordering guarantee is an assumed contract over the proved Less; the 'one unordered frame after a lazy change' is expressed by the hdirty ghost", ref="4 C06"),
  "C10": dict(
-   text="Atomicity as a contract shape: every public bar/container operation performs at most one send on the owner's channel and touches no bar state itself (frame conditions: modifies only sent(...)), every state change happens inside a closure that runs on the owner (A-ACT), and the late arms read only the state published by closing bsOk (published). Together these give one linearisation point per operation; the step taken at that point is C09's contract.",
+   text="Atomicity as a contract shape: every public bar/container operation performs at most one send on the owner's channel and touches no bar state itself (frame conditions: modifies only sent(...)), every state change happens inside a closure that runs on the owner (A-ACT), and the late arms read only the state published by closing bsOk (published). Together these give one linearisation point per operation; the step taken at that point is C09's contract. Static obligations on SSA: the state published through Bar.bs is written after publication only in its declared mutable field and exported getters read only frozen fields (found and fixed: Completed copied the whole struct), and no variable captured by a spawned closure is assigned by the spawner afterwards.",
    note="freedom from data races is argued from the frame conditions (static write sets per function), not from a happens-before model: the memory model itself is outside the contract language; Completed()'s late arm is covered only as far as its reads are of published state", ref="4 C10"),
  "C12": dict(
    text="Per-function contracts for the width exchange: syncWidth spawns one distributor per column, maxWidthDistributor answers every participant of a column with one common value that is at least each submitted width (maximum, common), WC.Format submits exactly once and receives exactly once when DSyncWidth is set and otherwise returns max(W, width + extra space) (own, exchange), bState.draw calls every decorator once; the heap manager keeps the sync flag and the column table per frame (syncflag, synced, syncframe).",
